@@ -380,6 +380,10 @@ func (e *Exec) builtinFn(b *ssa.Builtin, cc *ssa.CallCommon, in ssa.Instruction,
 			return nil
 		}, false
 	case "clear":
+		var elemT types.Type
+		if sl, ok := cc.Args[0].Type().Underlying().(*types.Slice); ok {
+			elemT = sl.Elem()
+		}
 		return func(args []Value) Value {
 			switch m := args[0].(type) {
 			case *MapV:
@@ -388,7 +392,15 @@ func (e *Exec) builtinFn(b *ssa.Builtin, cc *ssa.CallCommon, in ssa.Instruction,
 					en.deleted = true
 				}
 			case *SliceV:
-				unsup("clear of slice")
+				if m.obj == nil || m.len == 0 {
+					return nil
+				}
+				e.noteWrite(m.obj, st)
+				arr := m.obj.val.(*ArrayV)
+				z := zeroOf(elemT)
+				for i := 0; i < m.len; i++ {
+					arr.e[m.off+i] = copyVal(z)
+				}
 			}
 			return nil
 		}, false
